@@ -38,6 +38,7 @@ type Decoded struct {
 	OK      bool   // decrypted and authenticated (or plaintext epoch-0)
 	CID     []byte
 	Raw     []byte
+	gen     int // index+1 of the generation that opened a unified record
 }
 
 // Gen13 is one DTLS 1.3 traffic generation known to the decoder.
@@ -110,7 +111,7 @@ func (d *Decoder) Decode(from string, dg []byte, cidLen int) (out []Decoded, wel
 			}
 			rec := dg[:end]
 			dec := Decoded{From: from, Kind: "unified", Protect: true, CID: u.CID, Raw: rec, Epoch: uint16(u.EpochLow)}
-			for _, g := range d.Gens {
+			for gi, g := range d.Gens {
 				if byte(g.Epoch&3) != u.EpochLow {
 					continue
 				}
@@ -125,6 +126,7 @@ func (d *Decoder) Decode(from string, dg []byte, cidLen int) (out []Decoded, wel
 				content, typ, zeros, ok := InnerPlaintext(pt)
 				dec.Epoch, dec.Seq, dec.OK = g.Epoch, seq, ok
 				dec.Plain, dec.Type, dec.Zeros = content, typ, zeros
+				dec.gen = gi + 1
 
 				break
 			}
@@ -182,4 +184,17 @@ func (d *Decoder) Decode(from string, dg []byte, cidLen int) (out []Decoded, wel
 	}
 
 	return out, true
+}
+
+// Reseal13 protects the content of a decoded unified record once more under the same generation and
+// record number, with the header layout a different conforming sender could have chosen: 8- or
+// 16-bit sequence number (S), with or without the length field (L).
+func (d *Decoder) Reseal13(dec Decoded, sbit, lbit bool) ([]byte, error) {
+	if dec.gen == 0 || !dec.OK {
+		return nil, ErrFormat
+	}
+	inner := append(append([]byte(nil), dec.Plain...), dec.Type)
+	inner = append(inner, make([]byte, dec.Zeros)...)
+
+	return Seal13(d.Gens[dec.gen-1].keys, dec.Epoch, dec.Seq, dec.CID, sbit, lbit, inner)
 }
